@@ -20,16 +20,18 @@ TRUSTED = ["hand-written schedule model Ebv.Xadd; the tie is the shape check of 
            "harness/vh/interp.py executes XADD as one atomic step"]
 ASSUMPTIONS = ["the kernel/CPU executes BPF_XADD (atomic add) atomically", "each instance has private registers and stack; only map memory is shared",
                "local (stack) variables are per instance, so for them only the single-instance statement is checked"]
-RULE = ("family = {i,I,q,Q,x} x {constant, register, expression} x {+=,-=} on a shared array-map variable (and a local variable, single instance); "
+RULE = ("family = {i,I,q,Q,x} x {constant, register, expression} x {+=,-=} x {declared map variable, m?[base+const], m?[base+register]} on shared array-map memory (and a local variable, single instance); "
         "2-3 instances, random initial values and amounts (boundary and random), schedules: random interleavings at instruction granularity plus every "
         "order of the XADD instructions; non-trivial = schedule in which another instance runs between an instance's amount computation and its XADD")
 
 FAMILY = [(f, k, s) for f in "iIqQx" for k in ("const", "reg", "expr") for s in (1, -1)]
+# how the shared variable is addressed: declared map variable, m?[base + const], m?[base + register] (computed address)
+ADDR_KINDS = ("var", "sum", "computed")
 _cache = {}
 
 
-def build(fmt, kind, sign, const, local=False):
-    key = (fmt, kind, sign, const, local)
+def build(fmt, kind, sign, const, local=False, addr="var"):
+    key = (fmt, kind, sign, const, local, addr)
     if key in _cache:
         return _cache[key]
     from ebpfcat.ebpf import EBPF, LocalVar
@@ -38,11 +40,24 @@ def build(fmt, kind, sign, const, local=False):
     def program(self):
         self.owners.add(8)
         amt = {"const": const, "reg": self.r8, "expr": self.r8 * 3 + const}[kind]
-        if sign > 0:
-            self.v += amt
+        if addr == "var":
+            if sign > 0:
+                self.v += amt
+            else:
+                self.v -= amt
         else:
-            self.v -= amt
+            arr = {"i": self.mi, "I": self.mI, "q": self.mq, "Q": self.mQ, "x": self.mx}[fmt]
+            if addr == "sum":
+                a = self.r7 + self.__dict__["v"]
+            else:
+                self.owners.add(6)          # r6 holds the variable's offset (set by the environment)
+                a = self.r7 + self.r6
+            if sign > 0:
+                arr[a] += amt
+            else:
+                arr[a] -= amt
         self.other = 1
+        self.r0 = 0
         self.exit()
 
     ns = {"program": program}
@@ -66,23 +81,46 @@ def build(fmt, kind, sign, const, local=False):
     return info
 
 
-def shape(info, fmt, local):
-    """the emitted code has exactly one XADD, on the variable, and nothing else touches the variable's bytes"""
+class LoggingMachine(interp.Machine):
+    """records which instruction touches which bytes"""
+    def __init__(self, *a, **k):
+        super().__init__(*a, **k)
+        self.accesses = []
+
+    def load(self, addr, size):
+        self.accesses.append((self.pc, addr, size))
+        return super().load(addr, size)
+
+    def store(self, addr, size, val):
+        self.accesses.append((self.pc, addr, size))
+        return super().store(addr, size, val)
+
+
+def shape(info, fmt, local, r3=5):
+    """run one instance alone: exactly one XADD executes, it is on the variable, with the variable's width, and no other
+    instruction touches the variable's bytes (so everything before it is private computation)"""
     n = 4 if fmt in "iI" else 8
-    base = 10 if local else 7
-    xs = [i for i, ins in enumerate(info["insns"]) if (ins.opcode.value & 0xe7) == 0xc3]
+    regions, helpers, mp = [], {}, None
+    if info["fd"] is not None:
+        mp = interp.ArrayMapModel(info["fd"], info["size"])
+        regions, helpers = [mp.value], interp.std_helpers({info["fd"]: mp})
+    m = LoggingMachine(info["insns"], regions, helpers)
+    m.wr(1, 0)
+    m.wr(8, r3)
+    m.wr(6, info["off"])
+    try:
+        m.run()
+    except interp.Fault as e:
+        return f"fault: {e}"
+    cell = (interp.STACK_TOP if local else mp.value.base) + info["off"]
+    xs = [pc for pc in m.trace if (m.insns[pc][0] & 0xe7) == 0xc3]
     if len(xs) != 1:
-        return f"{len(xs)} XADD instructions"
-    x = info["insns"][xs[0]]
-    size = {0: 4, 0x18: 8}.get(x.opcode.value & 0x18)
-    if size != n or x.dst != base or x.off != info["off"]:
-        return f"XADD is not on the variable: dst r{x.dst} off {x.off} size {size}"
-    for i, ins in enumerate(info["insns"]):
-        op = ins.opcode.value
-        if i != xs[0] and op & 7 in (1, 2, 3) and (op & 0xe0) in (0x60, 0xc0):
-            b, sz = (ins.src if op & 7 == 1 else ins.dst), {0: 4, 8: 2, 0x10: 1, 0x18: 8}[op & 0x18]
-            if b == base and ins.off < info["off"] + n and info["off"] < ins.off + sz:
-                return f"instruction {i} accesses the variable besides the XADD"
+        return f"{len(xs)} XADD instructions executed"
+    touching = [(pc, a, sz) for pc, a, sz in m.accesses if a < cell + n and cell < a + sz]
+    if any(pc != xs[0] for pc, _, _ in touching):
+        return f"instruction {[pc for pc, _, _ in touching if pc != xs[0]][0]} accesses the variable besides the XADD"
+    if not touching or any((a, sz) != (cell, n) for _, a, sz in touching):
+        return f"XADD is not on the variable (accesses {touching[:2]}, variable at {cell:#x}+{n})"
     return None
 
 
@@ -93,6 +131,7 @@ def make_threads(info, fmt, n, r3s):
         m = interp.Machine(info["insns"], [mp.value], interp.std_helpers({info["fd"]: mp}))
         m.wr(1, 0)
         m.wr(8, r3)
+        m.wr(6, info["off"])
         m.pc = 0
         m.exited = False
         ms.append(m)
@@ -122,9 +161,10 @@ def run(ctx):
         bits = 32 if fmt in "iI" else 64
         for _ in range(ctx.n(4, 60)):
             const = rng.choice([0, 1, 5, 255, 1000, 0x7fffffff // 100000 if fmt == "x" else 0x7fffffff])
-            info = build(fmt, kind, sign, const)
+            addr = rng.choice(ADDR_KINDS)
+            info = build(fmt, kind, sign, const, addr=addr)
             bad = shape(info, fmt, False)
-            scase = {"fmt": fmt, "amount": kind, "sign": sign, "const": const}
+            scase = {"fmt": fmt, "amount": kind, "sign": sign, "const": const, "addr": addr}
             ctx.require(bad is None, "emitted code is not 'private computation; one XADD on the variable'", scase, bad, "shape")
             if bad is not None:
                 continue
@@ -163,7 +203,7 @@ def run(ctx):
                 case = {"bits": bits, "sched": s, "cell": init, "threads": [[p, a] for p, a in zip(pres, amounts)],
                         "stmt": scase, "r3": r3s}
                 ctx.case({k: case[k] for k in ("bits", "cell", "threads", "stmt")} | {"schedule_len": len(s)},
-                         nontrivial=True, kind=f"{fmt}-{kind}")
+                         nontrivial=True, kind=f"{fmt}-{kind}-{addr}")
                 if alldone:
                     ctx.require(final == (init + sum(amounts)) % (1 << bits), "an update was lost (final value is not initial + sum of all amounts)",
                                 case, out, "lost")
@@ -183,7 +223,7 @@ def run(ctx):
 
 def replay(ctx, case):
     st = case["stmt"]
-    info = build(st["fmt"], st["amount"], st["sign"], st["const"])
+    info = build(st["fmt"], st["amount"], st["sign"], st["const"], addr=st.get("addr", "var"))
     bits = case["bits"]
     mp, ms = make_threads(info, st["fmt"], len(case["r3"]), case["r3"])
     struct.pack_into("<Q" if bits == 64 else "<I", mp.value.data, info["off"], case["cell"])
